@@ -406,6 +406,8 @@ fn run_wide_rest(seed: u64, idx: u64) -> CaseOut {
     }
     spec.push_str(&"<>|"[..lit.min(3)]);
     let wide_first = rng.chance(1, 4);
+    // (a wide field that ends the line - also when it is the whole line - loses its invisible padding)
+    let wide_last = !wide_first || spec.is_empty();
     let spec = if wide_first { format!("{{wide_msg}}{spec}") } else { format!("{spec}{{wide_msg}}") };
     let msg_cols = match rng.below(3) {
         0 => rng.usize(8),
@@ -442,7 +444,7 @@ fn run_wide_rest(seed: u64, idx: u64) -> CaseOut {
             let left = w.saturating_sub(rest_cols);
             // the wide field is exactly `left` columns: the message's first `left` columns, padded
             let mut want_field: String = msg.chars().take(left).chain(std::iter::repeat(' ')).take(left).collect();
-            if !wide_first {
+            if wide_last {
                 // at the end of the line the invisible padding is dropped
                 want_field.truncate(want_field.trim_end().len());
             }
